@@ -640,13 +640,15 @@ def judge_history(ctx, model, log, cov):
                 why = J.shows(entry, want, entry["limit"])
                 if why:
                     klass = "shows-other-image"
-                    if subj[0] == "inst":
-                        klass = "stale-instance-shows-other-image"
-                    elif subj[0] == "mem" and entry["step"] != si and entry["img"].tobytes() == want.tobytes():
+                    if entry["step"] != si and entry["img"].tobytes() == want.tobytes():
                         klass = "same-bytes-different-shape-not-transmitted"
                     what = f"terminal {k} holds under id {pid} (transmitted in step {entry['step']}) not the requested image: {why}"
                 elif (entry["r"], entry["c"]) != (prow, pcol):
                     klass, what = "placement-differs-from-print", f"placement r={entry['r']} c={entry['c']} but the placeholder has {prow} rows x {pcol} cols"
+            if klass and subj[0] == "inst" and (entry is None or entry["step"] != si):
+                # one root cause: upload(ImageInstance) trusted an id that is no longer bound to the instance's image
+                what = f"upload_and_display(ImageInstance id={pid}) transmitted nothing although the id is no longer bound to the instance's image: " + what
+                klass = "stale-instance-not-retransmitted"
             if klass:
                 V(klass, what, si)
         if st["exc"] is not None:
@@ -804,6 +806,21 @@ def witness_child(work, which):
         im = Image.open(io.BytesIO(held))
         im.load()
         return {"ids": [a.id, pb.image_id, pa.image_id], "transmitted_in_third_call": len(pay_a), "held": summary(im), "requested": summary(a_img)}
+    if which == "mark":
+        # F-C04 / F-C08b, first half, replayed sequentially in one process: A is transmitted under an id that meanwhile
+        # belongs to B; the record must say "A", so that the next request for B transmits B
+        a_img = Image.new("RGB", (4, 2), (255, 0, 0))
+        b_img = Image.new("RGB", (4, 2), (0, 0, 255))
+        a = t.assign_id(a_img, cols=2, rows=1)
+        b = t.assign_id(b_img, cols=2, rows=1)
+        t.upload_and_display(a)
+        new_payloads()
+        pb = t.upload_and_display(b_img, cols=2, rows=1)
+        pay_b = new_payloads()
+        held = pay_b[-1] if pay_b else sent and base64.b64decode(re.search(rb";([A-Za-z0-9+/=]*)", bytes.fromhex(sent[-1]["w"])).group(1))
+        im = Image.open(io.BytesIO(held))
+        im.load()
+        return {"ids": [a.id, b.id, pb.image_id], "transmitted_in_last_call": len(pay_b), "held": summary(im), "requested": summary(b_img)}
     a_img = Image.new("RGB", (4, 1), (0, 0, 0))
     b_img = Image.new("RGB", (1, 4), (0, 0, 0))
     t2 = tupimage.TupimageTerminal(out_command=cmd, out_display=common.RecStream(), in_response=tty_in, id_database=db, terminal_id="w", session_id="w",
@@ -825,7 +842,7 @@ def run_witness(ctx, which):
     if "ok" not in r:
         return {"violates": False, "error": {k: v for k, v in r.items() if k != "tty"}}
     o = r["ok"]
-    if which == "stale":
+    if which in ("stale", "mark"):
         bad = o["held"] != o["requested"]
     else:
         bad = o["same_id"] and o["transmitted_in_second_call"] == 0
@@ -842,7 +859,8 @@ def run(ctx, model):
         ctx.corr_breaks.append({"what": "Spec literals differ from the harness's reading of the property text", "spec": spec})
     # the two hand-written witnesses first (F-C08, F-C08b second half)
     for which, klass, what in (("digest", "same-bytes-different-shape-not-transmitted", "a 4x1 and a 1x4 black RGB image: the second is never transmitted, the terminal shows the first"),
-                               ("stale", "stale-instance-shows-other-image", "a = assign_id(A); upload_and_display(B) recycles a.id; upload_and_display(a) prints the id while the terminal holds B")):
+                               ("mark", "recorded-description-is-not-the-transmitted-one", "a = assign_id(A); assign_id(B) recycles a.id; upload_and_display(a) transmits A; upload_and_display(B) is told nothing needs uploading and shows A"),
+                               ("stale", "stale-instance-not-retransmitted", "a = assign_id(A); upload_and_display(B) recycles a.id; upload_and_display(a) prints the id while the terminal holds B")):
         o = run_witness(ctx, which)
         cov.add({"witness": which, "out": {k: v for k, v in o.items() if k != "error"}}, klass=f"witness/{which}")
         if o.get("error"):
@@ -984,6 +1002,8 @@ def replay(ctx, model, rec):
     kind = case.get("kind")
     if kind == "witness-stale":
         return run_witness(ctx, "stale")
+    if kind == "witness-mark":
+        return run_witness(ctx, "mark")
     if kind in ("witness-digest", "witness-same-bytes"):
         return run_witness(ctx, "digest")
     if kind == "history":
